@@ -6137,18 +6137,22 @@ class Query(object):
                     try:
                         new_translator = translator_cls(
                             tree_copy, None, prev_translator.original_code_key, prev_translator.original_filter_num,
-                            prev_translator.extractors, None, prev_translator.vartypes.copy(),
+                            prev_translator.extractors, new_vars, prev_translator.vartypes.copy(),
                             left_join=True, optimize=name_path)
                     except UseAnotherTranslator:
                         assert False
-                    new_translator = query._reapply_filters(new_translator)
+                    new_translator = query._reapply_filters(new_translator, new_vars)
                     new_translator = new_translator.apply_lambda(func_id, new_filter_num, order_by, func_ast, argnames, original_names, extractors, new_vars, vartypes)
             query._database._translator_cache[new_key] = new_translator
         return query._clone(_filter_num=new_filter_num, _vars=new_vars, _key=new_key, _filters=new_filters,
                             _translator=new_translator)
-    def _reapply_filters(query, translator):
+    def _reapply_filters(query, translator, vars=None):
         for tup in query._filters:
             method_name, args = tup[0], tup[1:]
+            if method_name == 'apply_lambda':
+                # the remembered call has no values (they belong to an execution, not to the query): a translation that folds
+                # parameter values into the SQL (string slice bounds, getattr names) needs the current ones
+                args = args[:7] + (vars,) + args[8:]
             translator_method = getattr(translator, method_name)
             translator = translator_method(*args)
         return translator
